@@ -163,6 +163,7 @@ func runC01(c *Ctx, w *World, r *Report) {
 	ReportScale(w, r, names...)
 	ReportPair(w, r, names...)
 	ReportRound(w, r, names...)
+	ReportTableWidth(w, r)
 	reportFresh(w, r, "bitmap.IndexRank64", "bitmap.IndexRank128")
 	if !ok {
 		return
@@ -391,6 +392,10 @@ func runC01(c *Ctx, w *World, r *Report) {
 				bad = "the returned bit does not come from words[...]"
 				continue
 			}
+			if t := narrowedTo(w, wv); t != "" {
+				bad = "the word is narrowed to " + t + " before it is shifted by i&63: offsets beyond that width read the wrong bit"
+				continue
+			}
 			wx, wc, ok := asShiftRight(widx)
 			if !ok || wc != 6 || stripConv(wx) != iParam {
 				bad = "the word examined is not words[i>>6]"
@@ -467,4 +472,19 @@ func init() {
 		Quick:   []Config{cfgDefault}, Thorough: []Config{cfgDefault, cfg386},
 		Run: runC01,
 	})
+}
+
+// narrowedTo: v is a chain of integer conversions over some value; returns the narrowest type (< 64 bits) on the chain, or "".
+func narrowedTo(w *World, v ssa.Value) string {
+	out := ""
+	for {
+		cv, ok := v.(*ssa.Convert)
+		if !ok || !isIntType(cv.Type()) || !isIntType(cv.X.Type()) {
+			return out
+		}
+		if w.Sizes.Sizeof(cv.Type()) < 8 {
+			out = cv.Type().String()
+		}
+		v = cv.X
+	}
 }
